@@ -12,24 +12,26 @@ import (
 )
 
 type Check struct {
-	ID          string
-	Level       string // evidence level: exploration | fault_enumeration | model_checking
-	Rule        string // how cases are enumerated and what makes one non-trivial
-	Technique   string
-	Assumptions []string
-	Run         func(c *fw.Ctx)
-	Replay      func(c *fw.Ctx, raw json.RawMessage) // re-execute one recorded case; must report the violation again if it still fails
-	Budget      map[string]time.Duration            // per tier internal time cap per worker (exit 0, exhaustive:false when hit)
-	MinNontrivial int64                              // non-vacuity floor (harness error when not met on an exhaustive run)
-	Shards      int                                  // 0 = default
-	Inst        bool                                 // needs the instrumented (overlay) build
-	Race        bool                                 // needs the -race build
-	Extra       func(m *fw.Merged, cov map[string]any) // extra coverage keys
+	ID            string
+	Level         string // evidence level: exploration | fault_enumeration | model_checking
+	Rule          string // how cases are enumerated and what makes one non-trivial
+	Technique     string
+	Assumptions   []string
+	Run           func(c *fw.Ctx)
+	Replay        func(c *fw.Ctx, raw json.RawMessage)   // re-execute one recorded case; must report the violation again if it still fails
+	Budget        map[string]time.Duration               // per tier internal time cap per worker (exit 0, exhaustive:false when hit)
+	MinNontrivial int64                                  // non-vacuity floor (harness error when not met on an exhaustive run)
+	Shards        int                                    // 0 = default
+	Inst          bool                                   // needs the instrumented (overlay) build
+	Race          bool                                   // needs the -race build
+	CaseLimit     time.Duration                          // watchdog: a single guarded case running longer than this is a violation (C10)
+	Crumbs        bool                                   // keep a crash breadcrumb (a worker killed by a fatal runtime error names its case)
+	Extra         func(m *fw.Merged, cov map[string]any) // extra coverage keys
 }
 
 var reg = map[string]*Check{}
 
-func Register(c *Check) { reg[c.ID] = c }
+func Register(c *Check)    { reg[c.ID] = c }
 func Get(id string) *Check { return reg[id] }
 func IDs() []string {
 	var ids []string
